@@ -658,6 +658,10 @@ def build_special(spec):
         return np.zeros(spec["shape"], dtype=np.dtype(spec.get("dtype", "float64")))
     if k == "scalar0d":
         return np.array(3, dtype=np.dtype(spec.get("dtype", "float64")))
+    if k == "frozen":      # a read-only array on top of an immutable bytes object: nothing may ever write through it
+        dt = np.dtype(spec.get("dtype", "float64"))
+        n = int(np.prod(spec["shape"])) if len(spec["shape"]) else 1
+        return np.frombuffer(bytes(n * dt.itemsize), dtype=dt).reshape(spec["shape"])
     if k == "object":
         return np.array([[None, 1], [2, 3]], dtype=object)
     if k == "none":
